@@ -55,7 +55,7 @@ def locate(label, files, blocks, decl_texts):
         for di in block:
             t = decl_texts[di]
             if pos <= label["start"] < pos + len(t) + 2:
-                return (di, label["start"] - pos, files[fi][1][label["start"]:label["end"]])
+                return (di, label["start"] - pos, dict(files)[name][label["start"]:label["end"]])
             pos += len(t) + 2
     return (None, label["start"], label["file"])
 
@@ -153,6 +153,12 @@ def run_unit(probe, res, decls, planted, tag, rng, budget, bad_kinds, presence_o
         # offsets used for the location comparison do not move)
         decl_texts = [vgen.recase_identifiers(t, rng) for t in canonical_texts] if vi % 5 == 4 else canonical_texts
         files, _ = compose(decl_texts, blocks)
+        if vi % 3 == 2:
+            # a file that declares nothing (empty, blank, only a comment) somewhere in the set changes nothing
+            files = list(files)
+            files.insert(rng.randrange(len(files) + 1),
+                         ("notes%d.st" % vi, rng.choice(["", "\n\n", "(* nothing declared here *)\n", "  \t\n(* a *) (* b *)\n"])))
+            res.count("variant-with-empty-file")
         how = "project" if vi % 4 else "analyze"
         reps = 3 if vi == 0 else 1
         for _ in range(reps):
@@ -274,12 +280,28 @@ def cli_shard(shard_i, nshards, payload):
             d = os.path.join(tmp, "u%d" % i)
             os.makedirs(d)
             paths = []
+            nested = (i % 4 >= 2)
             for fi, b in enumerate(blocks):
-                pth = os.path.join(d, "f%d.st" % fi)
+                if nested:
+                    # one directory per file, every file with the same name (lib/types.st, app/types.st, ...)
+                    os.makedirs(os.path.join(d, "dir%d" % fi))
+                    pth = os.path.join(d, "dir%d" % fi, "unit.st")
+                else:
+                    pth = os.path.join(d, "f%d.st" % fi)
                 open(pth, "w").write("\n\n".join(texts[x] for x in b) + "\n")
                 paths.append(pth)
             ref = None
-            runs = [list(p) for p in itertools.permutations(paths)] + [[d]] * 4
+            if nested:
+                dirs = [os.path.dirname(p_) for p_ in paths]
+                runs = [list(p) for p in itertools.permutations(paths)] + [list(p) for p in itertools.permutations(dirs)]
+                if len(paths) > 1:
+                    runs.append([dirs[0]] + paths[1:])
+                res.count("cli-same-file-name-in-several-directories")
+            else:
+                if i % 4 == 1:
+                    open(os.path.join(d, "notes.st"), "w").write("(* nothing declared here *)\n")
+                    res.count("cli-with-empty-file")
+                runs = [list(p) for p in itertools.permutations(paths)] + [[d]] * 4
             for args in runs:
                 r = core.run_cli(["check"] + args, tmp)
                 res.evaluations += 1
@@ -288,10 +310,10 @@ def cli_shard(shard_i, nshards, payload):
                     res.inconclusive.append({"why": "cli watchdog", "case": {"args": args}})
                     continue
                 diags = core.parse_cli_diags(r["err"])
-                s = (r["rc"] == 0, tuple(sorted((c[0], os.path.basename(c[2] or ""), c[3], c[4]) for c in diags
+                s = (r["rc"] == 0, tuple(sorted((c[0], os.path.relpath(c[2], d) if c[2] else "", c[3], c[4]) for c in diags
                                                  if planted and c[0] == planted)))
-                case = {"files": [[os.path.basename(p), open(p).read()] for p in paths],
-                        "args": [os.path.basename(a) for a in args], "planted": planted}
+                case = {"files": [[os.path.relpath(p, d), open(p).read()] for p in paths],
+                        "args": [os.path.relpath(a, d) for a in args], "planted": planted}
                 if ref is None:
                     ref = s
                 elif s[0] != ref[0]:
@@ -339,6 +361,19 @@ def run(tier, seed):
 def replay(case):
     core.build_probe()
     c = case["case"]
+    if "args" in c:
+        core.build_plc()
+        tmp = core.worker_tmpdir("c06r")
+        d = os.path.join(tmp, "u")
+        for n_, t_ in c["files"]:
+            os.makedirs(os.path.dirname(os.path.join(d, n_)), exist_ok=True)
+            open(os.path.join(d, n_), "w").write(t_)
+        seen = set()
+        for args in [c["args"]] * 6 + [[n_ for n_, _ in c["files"]]] * 6:
+            r = core.run_cli(["check"] + [os.path.join(d, a) for a in args], tmp)
+            seen.add(r["rc"] == 0)
+        shutil.rmtree(tmp, ignore_errors=True)
+        return len(seen) == 1, "verdicts seen: %s" % sorted(seen)
     probe = core.Probe()
     out = []
     for key in ("reference", "variant"):
